@@ -566,6 +566,34 @@ def stream_end_rule(res, fx, rule='STREAM-END'):
         raise AnalysisBroken('%s: no inflate() call inside a loop found under zlib/' % rule)
 
 
+def budget_underflow_rule(res, fx, rule='TAINT'):
+    """a child reader's budget that is `length - constant` needs length >= constant where the reader is built (the test of the DIFFERENCE against something proves nothing: it has wrapped)"""
+    n = 0
+    for f in sorted((f for f in fx.funcs.values() if f.full and TAINT_FILES.search(f.file)), key=lambda f: (f.file, f.line, f.id)):
+        for c in f.walk():
+            if c['k'] not in ('CXXConstructExpr', 'CXXTemporaryObjectExpr') or 'DataUnflattener' not in (c.type() or '') or len(c['ch']) < 2:
+                continue
+            b = G.local_init(f, c['ch'][1])
+            b = A.strip_casts(b)
+            if b['k'] != 'BinaryOperator' or b.get('op') != '-' or not re.search(r'unsigned|uint', b.type() or ''):
+                continue
+            x, k = A.strip_casts(b['ch'][0]), A.strip_casts(b['ch'][1])
+            if x['k'] != 'DeclRefExpr' or k.get('v') is None:
+                continue
+            n += 1
+            ok = False
+            for (cn, t) in G.atoms_at(f, c):
+                for (l_, op_, r_) in A.rel_forms(cn, t):
+                    if l_['k'] == 'DeclRefExpr' and l_.get('d') == x.get('d') and r_.get('v') is not None and ((op_ == '>=' and r_['v'] >= k['v']) or (op_ == '>' and r_['v'] >= k['v'] - 1) or (op_ == '==' and r_['v'] >= k['v'])):
+                        ok = True
+            res.ob(rule, f.where(c), '%s: the reader budget `%s` is computed only where %s >= %s' % (f.q.split('::')[-1], b.text(40), x.get('n'), k['v']), ok, function=f.q,
+                   key='%s|%s|budget-underflow:%s' % (rule, f.q, x.get('n')),
+                   message='%s builds a DataUnflattener with the budget `%s` without %s >= %d having been established at that point: for a frame body shorter than %d bytes the unsigned subtraction '
+                           'wraps to about 4 GB, the nested reader gets a budget far beyond its parent\'s remainder and reads past the received bytes (heap over-read / information leak)'
+                           % (f.q, b.text(50), x.get('n'), k['v'], k['v']))
+    return n
+
+
 def c_init_rule(res, fx, rule='C-INIT'):
     """malloc() hands out uninitialised memory: a C object that the parsers link into lists must not carry a field nobody wrote"""
     res.rule(rule, 'in the C codecs a function that allocates a struct with MMalloc/malloc(sizeof(T) …) and hands it out assigns every (non-array) field of T on every path on which the allocation '
@@ -624,6 +652,7 @@ def run(res, tier):
     count_consulted_rule(res, fx)
     stream_end_rule(res, fx)
     c_init_rule(res, fx)
+    res.extra['budget_minus_constant_sites'] = budget_underflow_rule(res, fx)
     entries = []
     missing = []
     for q in PARSE_ENTRIES:
